@@ -411,6 +411,9 @@ struct C19 : public Driver {
         else {
             size_t fo = (size_t)en.num("full_op") % n.size();
             for (uint64_t k = 1; k <= n[fo]; ++k) faults.emplace_back((int)fo, k);
+            // small operations (set a parameter, install a function, destroy a handle, the destructor of an idle transformer) are enumerated
+            // completely: a uniform sample over the scenario's allocations would hardly ever land in them
+            for (size_t i = 0; i < n.size(); ++i) if (i != fo && n[i] <= 48) for (uint64_t k = 1; k <= n[i]; ++k) faults.emplace_back((int)i, k);
             Rng gf((uint64_t)en.num("fseed")); int pairs = (int)en.num("pairs");
             for (int j = 0; j < pairs && total; ++j) { uint64_t x = gf.below(total); size_t i = 0; while (x >= n[i]) { x -= n[i]; ++i; } faults.emplace_back((int)i, x + 1); }
         }
